@@ -1,4 +1,4 @@
 SPECIFICATION Spec
-CONSTANTS Chunks = 3  Ticks = 3  Design = "shared"
+CONSTANTS Chunks = 3  Ticks = 3  Design = "shared"  StoreWhen = "beforeClose"
 INVARIANTS NoRace
 CHECK_DEADLOCK FALSE
